@@ -384,6 +384,7 @@ fn one(_env: &Env, k: u64, case: u64, d: &mut Delta, rng: &mut rand::rngs::Small
     let events = udp_log.lock().unwrap().clone();
     let tcp = tcp_bytes.lock().unwrap().clone();
     d.tally("frames_injected", inj.len() as u64);
+    d.evaluations += inj.len() as u64;
     d.tally("frames_on_wire_during_injection_runs", frames.len() as u64);
     for i in &inj {
         d.saw("injected_kinds", i.what.clone());
